@@ -238,6 +238,7 @@ def run(prog, chk):
     chk.decided += ["the working copy of a glyph carries every field whole: each copied field is the source field itself (scalars), a container copy of it, or a comprehension that copies every element "
                     "whole (dict(a), a.copy(), deepcopy(a)) - not a re-assembly from selected keys, which loses what it does not name (anchor identifiers -> contextual anchors) and makes the "
                     "output depend on inplace (R08.12)"]
+    chk.decided += ["no function writes to a module-level container or rebinds a module global: the output cannot depend on what earlier compiles of the process left behind (R08.13 = R10.13)"]
     chk.not_decided += ["byte identity itself", "behavioural differences between defcon and ufoLib2", "ordering of dict-typed UFO containers (treated as content)"]
     chk.assumptions += ["glyph-class literals and sets handed to fontTools as sets are order-neutral sinks (coverage / class tables are sorted by glyph id)",
                         "dict iteration order is insertion order (content), only set / frozenset iteration is hash-seed dependent"]
@@ -254,6 +255,8 @@ def run(prog, chk):
     chk.guard(r167, prog, chk, "R08.9")
     chk.guard(r0810, prog, chk)
     chk.guard(check_glyph_copy_complete, prog, chk, "R08.12")
+    from .c10 import check_no_module_state
+    chk.guard(check_no_module_state, prog, chk, "R08.13")
 
 
 # ----------------------------------------------------------------------------- R08.1
